@@ -157,24 +157,26 @@ Proof.
   intros ((Hn & Hi & Hl & Hh) & HV) Hlen. unfold B, HB in *.
   unfold append_sorted_items.
   set (it := merge_batch (items s) b) in *. set (n := N.of_nat (length it)) in *.
+  match goal with |- context [with_items ?x it] => set (s1 := x) end.
+  assert (Hs1 : height s1 = height s /\ ic s1 = ic s /\ lc s1 = lc s) by (unfold s1; cbn; auto). destruct Hs1 as (Hs1h & Hs1i & Hs1l).
   set (h := N.max (height s) 1). assert (Hh1 : (1 <= h)%N /\ Z.of_N h <= 16384) by (unfold h; lia).
   set (l1 := if (n <=? lc s)%N then (N.max (N.min n h) 1 - 1)%N else lc s).
   assert (Hl1 : (l1 <= lc s)%N).
   { unfold l1. destruct (n <=? lc s)%N eqn:E; [apply N.leb_le in E; lia | lia]. }
   assert (Hl1n : (0 < n -> l1 < n)%N).
   { intros Hp. unfold l1. destruct (n <=? lc s)%N eqn:E; [lia | apply N.leb_gt in E; lia]. }
-  assert (Hnit : forall i l, nitems (with_cursor (with_items s it) i l) = n) by reflexivity.
+  assert (Hnit : forall i l, nitems (with_cursor (with_items s1 it) i l) = n) by reflexivity.
   destruct (n <=? l1 + ic s)%N eqn:E2.
   - apply N.leb_le in E2. split; [split|split].
-    + unfold Bounded, B, HB. rewrite Hnit. cbn [with_cursor with_items ic lc height]. repeat split; lia.
+    + unfold Bounded, B, HB. rewrite Hnit. cbn [with_cursor with_items ic lc height]. rewrite ?Hs1h. repeat split; lia.
     + unfold Valid. rewrite Hnit. cbn [with_cursor with_items ic lc]. intros Hp. specialize (Hl1n Hp). lia.
     + cbn [with_cursor lc]. lia.
-    + reflexivity.
+    + cbn [with_cursor with_items height]. exact Hs1h.
   - apply N.leb_gt in E2. split; [split|split].
-    + unfold Bounded, B, HB. rewrite Hnit. cbn [with_cursor with_items ic lc height]. repeat split; lia.
+    + unfold Bounded, B, HB. rewrite Hnit. cbn [with_cursor with_items ic lc height]. rewrite ?Hs1h. repeat split; lia.
     + unfold Valid. rewrite Hnit. cbn [with_cursor with_items ic lc]. intros _. lia.
     + cbn [with_cursor lc]. lia.
-    + reflexivity.
+    + cbn [with_cursor with_items height]. exact Hs1h.
 Qed.
 
 Lemma clear_good s : Good s -> Good (clear s).
